@@ -2,6 +2,11 @@
 from props.common import *
 
 LEVEL = 'proof'
+CLAIM = ("bitCount, findLSB, findMSB, bitfieldReverse, bitfieldExtract, bitfieldInsert (8/16/32/64-bit signed and unsigned element types, scalar and vec1-4 overloads, plus the aligned 4 x 32-bit SIMD "
+         "specialisations of func_integer_simd.inl) and uaddCarry, usubBorrow, umulExtended, imulExtended (scalar and vec1-4) are executed symbolically from their clang IR with full-width free inputs; "
+         "the solver shows each result equal to the GLSL 4.20 section 8.8 definition written directly over bit-vectors (population count, lowest / highest set bit with the signed rule of findMSB, "
+         "bit reversal, sign- or zero-extended field extraction, bit-by-bit insertion, 33-bit sum / difference and 64-bit product split into the two output words), for every value and every "
+         "(offset, bits) pair of the documented domain including zero-width and full-width fields.")
 BOUNDS = 'no bound on values: every input is a free bit-vector of the full machine width (8,16,32,64 bit); no loops in the encoded code'
 OUTSIDE = 'behaviour outside the documented (offset,bits) domain; SIMD specialisations other than the aligned 4 x 32-bit ones of func_integer_simd.inl at SSE2/AVX2 (quick) and SSE2..AVX2 (thorough) - the rest of the SIMD surface is C03'
 ASSUMPTIONS = ['bitfieldExtract/Insert: 0<=offset, 0<=bits, offset+bits<=width (GLSL: otherwise undefined)']
@@ -159,17 +164,17 @@ def jobs(tier):
     for fam in ('bitCount', 'findLSB', 'findMSB', 'bitfieldReverse'):
         for t in (WIDE if fam == 'bitfieldReverse' else TYS):
             J.append(('%s_%s' % (fam, t), job_simple(fam, t, 0)))
-            for L in ((4,) if q and t in ('i32', 'u32', 'u8') else (() if q else (1, 2, 3, 4))):
+            for L in (((1, 2, 3, 4) if t in ('i32', 'u32', 'u8', 'i8') else (3,)) if q else (1, 2, 3, 4)):
                 J.append(('%s_v%d_%s' % (fam, L, t), job_simple(fam, t, L)))
     for t in TYS:
         J.append(('bitfieldExtract_' + t, job_extract(t, 0)))
         if t in WIDE: J.append(('bitfieldInsert_' + t, job_insert(t, 0)))
-        for L in ((3,) if q and t in ('i32', 'u32') else (() if q else (1, 2, 3, 4))):
+        for L in (((1, 2, 3, 4) if t in ('i32', 'u32') else (2,)) if q else (1, 2, 3, 4)):
             J.append(('bitfieldExtract_v%d_%s' % (L, t), job_extract(t, L)))
             if t in WIDE: J.append(('bitfieldInsert_v%d_%s' % (L, t), job_insert(t, L)))
     for fam in ('uaddCarry', 'usubBorrow', 'umulExtended', 'imulExtended'):
         J.append((fam, job_carry(fam, 0)))
-        for L in ((2,) if q else (1, 2, 3, 4)): J.append(('%s_v%d' % (fam, L), job_carry(fam, L)))
+        for L in (1, 2, 3, 4): J.append(('%s_v%d' % (fam, L), job_carry(fam, L)))
     for isa in simd_isas(tier):
         for t in ('i32', 'u32'):
             for fam in ('bitCount', 'findLSB', 'findMSB', 'bitfieldReverse'):
